@@ -61,6 +61,9 @@ class Oracle:
         self.fbw, self.fbh = scr["w"], scr["h"]
         self.latest, self.named = [], set()
         self.scale_requested = False
+        # a client that cannot be told a new size (no NewFBSize/ExtDesktopSize) but, after the screen was resized,
+        # itself ASKS for area beyond the size it was told has thereby extended what it accepts (None: not the case)
+        self.askw = self.askh = None
         self.buf = b""
         self.pos = 0
 
@@ -117,7 +120,7 @@ class Oracle:
             if e == E["CopyRect"] and e not in self.latest:
                 raise Bad("caps", "CopyRect used although the latest SetEncodings does not name it (withdrawn)",
                           enc="CopyRect", named_earlier=True)
-            if x + w > self.fbw or y + h > self.fbh:
+            if x + w > max(self.fbw, self.askw or 0) or y + h > max(self.fbh, self.askh or 0):
                 raise Bad("outside", "rectangle %s outside the announced framebuffer %dx%d" % (hd, self.fbw, self.fbh))
             if e == E["Raw"]:
                 self.take(w * h * bp)
@@ -818,6 +821,8 @@ def source_has(key):
         _SRC["wrapfix"] = bool(re.search(r"goto\s+countRects\s*;", body)) and "lastRectMode" in body
         # second stage: the copy rectangles are merged into the update region when they alone reach the field size
         _SRC["wrapcopy"] = _SRC["wrapfix"] and bool(re.search(r"sraRgnOr\(\s*updateRegion\s*,\s*updateCopyRegion\s*\)", body))
+        # F22 repair (notes/fix_C03_8.diff): the cursor redraw area is intersected with the saved requestedRegion
+        _SRC["clipcursor"] = bool(re.search(r"sraRgnAnd\(\s*updateRegion\s*,\s*requested\s*\)", body))
     return _SRC[key]
 
 
@@ -867,10 +872,10 @@ def model_script(case_lines, ops):
             o = parse_kv(op)
             scr.update(pw=o.get("pw", 0), namelen=o.get("namelen", 5))
             M.append("screen " + " ".join("%s=%s" % kv for kv in scr.items()) +
-                     " dontconv=%d xvp=%d utf8=%d ledhook=%d resetextclip=%d raw24=%d wrapfix=%d wrapcopy=%d" % (
+                     " dontconv=%d xvp=%d utf8=%d ledhook=%d resetextclip=%d raw24=%d wrapfix=%d wrapcopy=%d clipcursor=%d" % (
                          o.get("dontconv", 0), o.get("xvp", 0), o.get("utf8", 0), o.get("ledhook", 0),
                          int(source_resets_extclip()), int(source_has("raw24")), int(source_has("wrapfix")),
-                         int(source_has("wrapcopy"))))
+                         int(source_has("wrapcopy")), int(source_has("clipcursor"))))
             continue
         if name == "connect":
             hexs = [l.split(" ", 1)[1] for l in got if l.startswith("hs ")]
@@ -1005,6 +1010,11 @@ def analyse_case(case_lines, impl_lines, model_lines, crashed, stderr_tail):
         elif name == "newfb" or (name == "sds" and p[4] == "1" and any(l == "sdscalled 1" for l in got)):
             if E["NewFBSize"] not in orc.latest and E["ExtDesktopSize"] not in orc.latest:
                 resized_blind = True
+                if orc.askw is None and not orc.scale_requested:
+                    orc.askw = orc.askh = 0
+        elif name == "fur" and orc.askw is not None and len(p) >= 6:
+            orc.askw = max(orc.askw, min(int(p[2]) + int(p[4]), 65535))
+            orc.askh = max(orc.askh, min(int(p[3]) + int(p[5]), 65535))
         for l in got:
             if l.startswith("spin"):
                 res["spin"] = True
